@@ -64,6 +64,11 @@ def main(argv=None):
     # several missing variables each, first read by different assignments)
     texts.append('states("A", x=1, u=0.5)\nstates("B", y=2, v=1.5)\nparameters("A", ka=1)\nparameters("B", kb=2)\nexpressions("A")\n'
                  'ia = ka*y\nja = v + x\ndx_dt = ia - x\ndu_dt = ja - u*kb\nexpressions("B")\nib = kb*x\njb = u - y\ndy_dt = ib - y\ndv_dt = jb + ia*ka\n')
+    # assignments that read nothing but constant-valued intermediates defined further down (every name they read is an assignment
+    # of the model; the nodes they depend on have no predecessors, so ties between them are broken by insertion order alone)
+    texts.append("states(V=-65, m=0.05)\nparameters(g=1.2)\nE_span = (e_na - e_k) + (e_ca - e_l) + (e_cl - e_h)\nscale = e_h*e_ca - e_l*e_na\n"
+                 "dV_dt = -g*(V - E_span) + scale*m\ndm_dt = (e_k - V)/E_span - m\n"
+                 "e_na = 50.0\ne_k = -77.0\ne_ca = 120.0\ne_l = -54.4\ne_cl = -30.0\ne_h = -20.0\n")
     # models whose names come in pairs that differ only in case
     saved = list(lang.NAME_POOL)
     lang.NAME_POOL[:] = ["F", "f", "R", "r", "K", "k", "V", "v", "G", "g", "M", "m", "H", "h", "X", "x", "Y", "y", "W", "w", "N", "n", "Q", "q"]
